@@ -363,7 +363,18 @@ func main() {
 	pt := load(filepath.Join(root, "ptracer"))
 	redirectSel(pt, "unix", "Wait4", "vhWait4")
 
-	for _, fs := range [][]*file{us, ct, fe, pt} {
+	// --- pkg/cgroup: a simulator yield before every file-system call, seeded random names
+	cg := load(filepath.Join(root, "pkg/cgroup"))
+	redirectSel(cg, "os", "Stat", "vyStat")
+	redirectSel(cg, "os", "Mkdir", "vyMkdir")
+	redirectSel(cg, "os", "MkdirAll", "vyMkdirAll")
+	redirectSel(cg, "os", "ReadFile", "vyReadFile")
+	redirectSel(cg, "os", "WriteFile", "vyWriteFile")
+	redirectSel(cg, "os", "OpenFile", "vyOpenFile")
+	redirectSel(cg, "syscall", "Rmdir", "vyRmdir")
+	redirectSel(cg, "rand", "Int32", "vyRand")
+
+	for _, fs := range [][]*file{us, ct, fe, pt, cg} {
 		for _, f := range fs {
 			if err := f.flush(); err != nil {
 				fmt.Fprintln(os.Stderr, "seamgen:", err)
